@@ -404,7 +404,7 @@ GSwapCommutes ==
 (* ------------------------------------------------------------------ C14 on one level with choices and groups *)
 \* upper bound: visible names of the level's items that match what was typed, completer values of the pending argument
 GMayOffer(d, gs, p) ==
-  IF gs.posOnly THEN {} ELSE
+  IF gs.posOnly THEN {"--"} ELSE
   {Pref(it) : it \in {x \in GLeaves(d) : ~x.hidden /\ NameMatches(x, p)}}
   \cup (IF gs.pending # "" THEN UNION {RangeOf(x.completer) : x \in {y \in GLeaves(d) : y.id = gs.pending}} ELSE {})
   \cup UNION {IF d.named[k].kind = "adj" /\ d.named[k].head.kind = "cmd" /\ (p.k = "fresh" \/ (p.k = "word" /\ IsPrefix(p.cs, d.named[k].head.nchars[1])))
